@@ -357,6 +357,37 @@ Definition gfd (h : list Z) : list (list Z) := [h; rack_of h; cluster_of h].
 Definition gfd_wire (h : list Z) : list Z :=
   (Z.of_nat (length (rack_of h)) :: rack_of h) ++ (Z.of_nat (length (cluster_of h)) :: cluster_of h).
 
+(* ---------- tractserver_monitor.go: recvHeartbeat ----------
+   Each heartbeat REPLACES what the monitor knows about that tractserver (address, time of the beat, load);
+   nothing of an earlier report survives.  A beat is (address, time, available space). *)
+Fixpoint upd_beat (a : host) (d : tsdata) (l : list tsdata) : list tsdata :=
+  match l with
+  | [] => [d]
+  | x :: r => if N.eqb (ts_addr x) a then d :: r else x :: upd_beat a d r
+  end.
+Definition beat_data (b : Z * Z * Z) : tsdata :=
+  let '(a, t, av) := b in {| ts_addr := zN a; ts_beaten := true; ts_last := t; ts_avail := zN av |}.
+Definition recv_beat (l : list tsdata) (b : Z * Z * Z) : list tsdata := upd_beat (ts_addr (beat_data b)) (beat_data b) l.
+Definition apply_beats (bs : list (Z * Z * Z)) : list tsdata := fold_left recv_beat bs [].
+Fixpoint take_beats (l : list Z) : option (list (Z * Z * Z)) :=
+  match l with
+  | [] => Some []
+  | a :: t :: av :: r => match take_beats r with Some bs => Some ((a, t, av) :: bs) | None => None end
+  | _ => None
+  end.
+(* wire: 6 :: now :: start :: grace :: unhealthy :: min_avail :: (addr, time, avail)*  ->  sorted candidate addresses *)
+Definition beats_wire (op : list Z) : option (list Z) :=
+  match op with
+  | nw :: st :: gr :: un :: mi :: r =>
+      match take_beats r with
+      | Some bs =>
+          let cfg := {| now := nw; start := st; grace := gr; unhealthy_thr := un; min_avail := zN mi |} in
+          Some (map Z.of_N (fold_right ins_N [] (candidates cfg (apply_beats bs))))
+      | None => None
+      end
+  | _ => None
+  end.
+
 Definition step_wire (op : list Z) : list Z :=
   let bad := [(-1)%Z] in
   match op with
@@ -365,6 +396,7 @@ Definition step_wire (op : list Z) : list Z :=
   | 3%Z :: r => match index_wire r with Some v => v | None => bad end
   | 4%Z :: r => match cand_wire r with Some v => v | None => bad end
   | 5%Z :: r => gfd_wire r
+  | 6%Z :: r => match beats_wire r with Some v => v | None => bad end
   | _ => bad
   end.
 
